@@ -112,6 +112,31 @@ def run_scenario(run: Run, scen: dict, rng: random.Random):
                 except common.Mismatch as mm:
                     run.violation("marginal-wrong", scen_b, f"{mm} {mm.detail} (sample {b}, mask {zs}, batch size {B}, folds {Fs})")
                     return
+        # the query must follow parameter updates (evaluation without autograd, update in place, again)
+        rows = gen.gen_inputs(rng, spec, 2)
+        X = torch.as_tensor(common.input_array(rows, spec))
+        m0 = [rng.sample(vs, rng.randint(1, len(vs))) for _ in rows]
+        # (directly parameterised probabilities must stay normalised: documented precondition; not perturbed)
+        direct_probs = any(isinstance(d.get("probs"), dict) and d["probs"].get("pz") == "id" for d in spec["layers"])
+        try:
+            with torch.no_grad():
+                q(X, integrate_vars=[Scope(m) for m in m0])
+                for p in tc.parameters():
+                    if p.requires_grad and not direct_probs:
+                        p.add_(torch.rand_like(p) * 0.5)
+                y2 = lin(q(X, integrate_vars=[Scope(m) for m in m0])).numpy()
+            for b in range(len(rows)):
+                zs = sorted(m0[b])
+                if len([z for z in zs if z in cont]) > 1:
+                    continue
+                bf = brute_force_per_output(tc, sc, spec, [rows[b]], zs, semiring)
+                common.compare_arrays(y2[b:b + 1], bf, tol=1e-7 if cont else 1e-9, what="IntegrateQuery after an in-place parameter update vs brute-force sum")
+        except common.Mismatch as mm:
+            run.violation("marginal-stale", dict(scen, rows=rows, masks=m0), f"{mm} {mm.detail}")
+            return
+        except Exception as e:  # noqa: BLE001
+            run.violation("query-crash", dict(scen, rows=rows, masks=m0), f"after parameter update: {type(e).__name__}: {e}")
+            return
         # agreement with the symbolic operator (variables that have an integration rule)
         zs = [v for v in vs if all(d["t"] in ("cat", "gauss", "emb") for d in spec["layers"] if d.get("v") == v)]
         if zs:
